@@ -479,6 +479,18 @@ def enumerated(tier):
             cmds.append({"m": "execute_service", "key": 3, "sargs": [["i", 1], ["f", 2]], "data": {"i": iv, "f": 0.5}})
             cmds.append({"m": "execute_service", "key": 3, "sargs": [["s", 3], ["i", 1], ["ia", 5]], "data": {"i": iv, "s": "", "ia": [iv]}})
         yield {"noise": api == [1, 10], "sessions": [{"api": api, "cmds": cmds}]}
+    # long text values: the request's size sweeps across the one-/two-byte length boundary of the plaintext framing
+    # (and stays well-formed over Noise)
+    for noise in (False, True):
+        cmds = []
+        for L in list(range(108, 136)) + [16370, 16384]:
+            v = "x" * L
+            cmds.append({"m": "text_command", "key": 1, "args": {"state": v}})
+            cmds.append({"m": "select_command", "key": 2, "args": {"state": v}})
+            cmds.append({"m": "siren_command", "key": 3, "args": {"tone": v}})
+            cmds.append({"m": "media_player_command", "key": 4, "args": {"media_url": v, "announcement": False}})
+            cmds.append({"m": "light_command", "key": 5, "args": {"state": True, "effect": v}})
+        yield {"noise": noise, "sessions": [{"api": [1, 10], "cmds": cmds}]}
     # one client, consecutive sessions on both sides of each threshold, same service key redefined
     for a, b in (([1, 2], [1, 3]), ([1, 3], [1, 2]), ([1, 0], [1, 1]), ([1, 4], [1, 5]), ([1, 10], [1, 2])):
         def mk(sargs, data):
